@@ -5,7 +5,7 @@ from collections import Counter
 
 from ..choices import Choices, derive_seed
 from ..eventlog import EventLog
-from ..loop import SimBudgetExceeded, SimDeadlock, new_loop
+from ..loop import RunTimeout, SimBudgetExceeded, SimDeadlock, hang_frame, new_loop
 from ..seams import Seams, teardown_loop
 
 
@@ -75,6 +75,14 @@ class BaseWorld:
     # subclasses: async def main(self); def nontrivial(self) -> bool; def sample(self) -> dict
 
 
+def note_hang(world, spec, where):
+    """One callback of the code under test never returned (busy loop): the event loop - every task of the
+    process - is frozen.  Reported under the property being checked, with the spinning function as cause."""
+    world.probes["hang_detected"] += 1
+    world.violation(spec["property"], "hang:event-loop-frozen-by-busy-loop@" + where,
+                    "a callback spun for more than 10 s of wall time without returning; innermost aiortc frame: " + where)
+
+
 def build_choices(spec, generate):
     """-> (choices, cfg, ops); `generate(ch, spec)` draws from streams cfg / wl."""
     replay = spec.get("replay")
@@ -97,6 +105,11 @@ def execute_world(world_cls, spec, ch, cfg, ops, keep_log=False):
             world.loop.run_until_complete(world.main())
         except (SimDeadlock, SimBudgetExceeded) as exc:
             harness = world.on_budget(exc) if hasattr(world, "on_budget") else "%s: %s" % (type(exc).__name__, exc)
+        except RunTimeout as exc:
+            where = hang_frame(world.loop, exc)
+            if where is None:
+                raise
+            note_hang(world, spec, where)
     finally:
         try:
             if hasattr(world, "cleanup"):
